@@ -86,39 +86,45 @@ func structStores(a *ssa.Alloc, before ssa.Instruction, d int) (map[string][]*ss
 }
 
 type s3Req struct {
-	fn     *ssa.Function
 	kind   string // "GetObjectInput" / "PutObjectInput"
 	call   *ssa.Call
+	fr     *frame // frame in which the request is issued
 	alloc  *ssa.Alloc
+	afr    *frame // frame in which the input struct is built
 	fields map[string][]*ssa.Store
 	und    []string
 }
 
-func s3Requests(fn *ssa.Function) []s3Req {
+// s3Requests finds the requests issued by the method of root frame fr and by
+// the helpers it calls (depth-bounded): calls that leave the repository (or
+// are dynamic) and take a *s3.GetObjectInput / *s3.PutObjectInput.
+func s3Requests(root *frame) []s3Req {
 	var out []s3Req
-	for _, b := range fn.Blocks {
-		for _, ins := range b.Instrs {
-			call, ok := ins.(*ssa.Call)
-			if !ok {
-				continue
-			}
-			for _, a := range call.Call.Args {
-				for _, kind := range []string{"GetObjectInput", "PutObjectInput"} {
-					if !namedFrom(a.Type(), awsS3Pkg, kind) || !isPointer(a.Type()) {
-						continue
-					}
-					rq := s3Req{fn: fn, kind: kind, call: call}
-					if al, ok := a.(*ssa.Alloc); ok {
-						rq.alloc = al
-						rq.fields, rq.und = structStores(al, call, 0)
-					} else {
-						rq.und = append(rq.und, "the request input is not a local struct built in this function")
-					}
-					out = append(out, rq)
+	frameCalls(root, func(call *ssa.Call, fr *frame) {
+		if fr.child(call) != nil {
+			return // a helper that is handed the input: followed, not a request
+		}
+		for _, a := range call.Call.Args {
+			for _, kind := range []string{"GetObjectInput", "PutObjectInput"} {
+				if !namedFrom(a.Type(), awsS3Pkg, kind) || !isPointer(a.Type()) {
+					continue
 				}
+				rq := s3Req{kind: kind, call: call, fr: fr}
+				x := expand(a, fr)
+				if al, ok := x.v.(*ssa.Alloc); ok {
+					rq.alloc, rq.afr = al, x.fr
+					var before ssa.Instruction
+					if x.fr == fr {
+						before = call
+					}
+					rq.fields, rq.und = structStores(al, before, 0)
+				} else {
+					rq.und = append(rq.und, "the request input is not a local struct built in this method or its helpers ("+descFval(x)+")")
+				}
+				out = append(out, rq)
 			}
 		}
-	}
+	})
 	return out
 }
 
@@ -144,23 +150,22 @@ func runS3KEY(c *Ctx) {
 			what string
 		}{{b.load, "GetObjectInput", "Load"}, {b.store, "PutObjectInput", "Store"}} {
 			fn := m.fn
-			recv := newRecvInfo(fn)
+			root := rootFrame(P, fn)
 			minParams := 3
 			if m.what == "Store" {
 				minParams = 4
 			}
-			if recv == nil || len(fn.Params) < minParams {
+			if root.recv == nil || len(fn.Params) < minParams {
 				c.Undecided(fn, P.Pos(fn.Pos()), "signature", "unexpected method shape")
 				continue
 			}
 			for _, f := range []string{"Prefix", "BucketName"} {
-				if recv.fieldWritten(f) {
+				if root.recv.fieldWritten(f) {
 					c.Undecided(fn, P.Pos(fn.Pos()), "receiver field "+f+" modified", "the method assigns receiver field "+f+" before using it")
 				}
 			}
-			nameP := fn.Params[2]
 			var reqs []s3Req
-			for _, r := range s3Requests(fn) {
+			for _, r := range s3Requests(root) {
 				if r.kind == m.kind {
 					reqs = append(reqs, r)
 				} else {
@@ -180,13 +185,13 @@ func runS3KEY(c *Ctx) {
 			// request goes to the client held in a receiver field, no request options
 			if !rq.call.Call.IsInvoke() {
 				c.Undecided(fn, pos, m.kind+" request target", "the request is not an interface call on the S3 client")
-			} else if _, ok := recv.fieldOf(rq.call.Call.Value); !ok {
+			} else if _, ok := rootRecvField(rq.call.Call.Value, rq.fr); !ok {
 				c.Undecided(fn, pos, m.kind+" request target", "the S3 client is not read from a receiver field")
 			} else if want := map[string]string{"GetObjectInput": "GetObject", "PutObjectInput": "PutObject"}[m.kind]; !strings.HasPrefix(rq.call.Call.Method.Name(), want) {
 				c.Violation(fn, pos, m.kind+" passed to "+rq.call.Call.Method.Name(), m.what+" does not perform a "+want+" request")
 			}
 			for i, a := range rq.call.Call.Args {
-				if i >= 2 && !ir.IsNilConst(a) {
+				if i >= 2 && !ir.IsNilConst(expand(a, rq.fr).v) {
 					c.Undecided(fn, pos, "request options", "request options are passed; they can alter the object addressed")
 				}
 			}
@@ -205,16 +210,18 @@ func runS3KEY(c *Ctx) {
 			// Key
 			if v, ok := single("Key"); ok {
 				shape, good := "", false
-				if call, isCall := v.(*ssa.Call); isCall && staticID(call) == awsPkg+".String" {
-					leaves := concatLeaves(call.Call.Args[0])
+				x := expand(v, rq.afr)
+				if call, isCall := x.v.(*ssa.Call); isCall && staticID(call) == awsPkg+".String" {
 					var parts []string
-					for _, l := range leaves {
-						if f, ok := recv.fieldOf(l); ok {
+					for _, l := range stringLeaves(call.Call.Args[0], x.fr) {
+						if f, ok := rootRecvField(l.v, l.fr); ok {
 							parts = append(parts, "recv."+f)
-						} else if l == ssa.Value(nameP) {
+						} else if isRootParam(l.v, l.fr, 2) {
 							parts = append(parts, "name")
-						} else if s, ok := constString(l); ok {
-							parts = append(parts, fmt.Sprintf("%q", s))
+						} else if s, ok := constString(l.v); ok {
+							if s != "" {
+								parts = append(parts, fmt.Sprintf("%q", s))
+							}
 						} else {
 							parts = append(parts, "?")
 						}
@@ -222,10 +229,21 @@ func runS3KEY(c *Ctx) {
 					shape = strings.Join(parts, "+")
 					good = shape == "recv.Prefix+name"
 				} else {
-					shape = "not aws.String(…)"
+					shape = "not aws.String(…): " + descFval(x)
 				}
 				shapes[m.what+".Key"] = shape
-				if good {
+				keyUnd := unfollowedHelper(x)
+				if call, isCall := x.v.(*ssa.Call); isCall && staticID(call) == awsPkg+".String" {
+					for _, l := range stringLeaves(call.Call.Args[0], x.fr) {
+						if unfollowedHelper(l) {
+							keyUnd = true
+						}
+					}
+				}
+				if keyUnd {
+					delete(shapes, m.what+".Key")
+					c.Undecided(fn, P.InstrPos(rq.fields["Key"][0]), "Key of "+m.kind, "the key is computed by a helper the rule does not follow (nesting deeper than 2, or several returns): "+shape)
+				} else if good {
 					c.OK(P.InstrPos(rq.fields["Key"][0]), "Key of "+m.kind+" in "+ir.FuncName(fn), "aws.String(receiver.Prefix + name parameter)", false)
 				} else {
 					c.Violation(fn, P.InstrPos(rq.fields["Key"][0]), "Key of "+m.kind+" is not Prefix+name",
@@ -235,15 +253,22 @@ func runS3KEY(c *Ctx) {
 			// Bucket
 			if v, ok := single("Bucket"); ok {
 				shape := "?"
-				if f, ok := recv.fieldAddrOf(v); ok {
+				x := expand(v, rq.afr)
+				if f, ok := rootRecvFieldAddr(x.v, x.fr); ok {
 					shape = "&recv." + f
-				} else if call, isCall := v.(*ssa.Call); isCall && staticID(call) == awsPkg+".String" {
-					if f, ok := recv.fieldOf(call.Call.Args[0]); ok {
+				} else if call, isCall := x.v.(*ssa.Call); isCall && staticID(call) == awsPkg+".String" {
+					if f, ok := rootRecvField(call.Call.Args[0], x.fr); ok {
 						shape = "&recv." + f // aws.String(recv.f) is an equivalent pointer to a copy
 					}
 				}
+				if shape == "?" {
+					shape = descFval(x)
+				}
 				shapes[m.what+".Bucket"] = shape
-				if shape == "&recv.BucketName" {
+				if unfollowedHelper(x) {
+					delete(shapes, m.what+".Key")
+					c.Undecided(fn, P.InstrPos(rq.fields["Bucket"][0]), "Bucket of "+m.kind, "the bucket is computed by a helper the rule does not follow (nesting deeper than 2, or several returns): "+shape)
+				} else if shape == "&recv.BucketName" {
 					c.OK(P.InstrPos(rq.fields["Bucket"][0]), "Bucket of "+m.kind+" in "+ir.FuncName(fn), "pointer to receiver.BucketName", false)
 				} else {
 					c.Violation(fn, P.InstrPos(rq.fields["Bucket"][0]), "Bucket of "+m.kind+" is not BucketName",
@@ -268,18 +293,19 @@ func runS3KEY(c *Ctx) {
 				c.Undecided(fn, pos, "field "+f+" of "+m.kind, "the request sets "+f+", whose effect on which bytes are read or written the rule does not model")
 			}
 			if m.kind == "PutObjectInput" {
-				bytesP := fn.Params[3]
 				if v, ok := single("Body"); ok {
-					src := ir.Strip(v)
-					if call, isCall := src.(*ssa.Call); isCall && staticID(call) == awsPkg+".ReadSeekCloser" {
-						src = ir.Strip(call.Call.Args[0])
+					x := expand(v, rq.afr)
+					if call, isCall := x.v.(*ssa.Call); isCall && staticID(call) == awsPkg+".ReadSeekCloser" {
+						x = expand(call.Call.Args[0], x.fr)
 					}
-					call, isCall := src.(*ssa.Call)
-					if isCall && (staticID(call) == "bytes.NewReader" || staticID(call) == "bytes.NewBuffer") && call.Call.Args[0] == ssa.Value(bytesP) {
+					call, isCall := x.v.(*ssa.Call)
+					if unfollowedHelper(x) {
+						c.Undecided(fn, P.InstrPos(rq.fields["Body"][0]), "Body of PutObjectInput", "the body is computed by a helper the rule does not follow: "+descFval(x))
+					} else if isCall && (staticID(call) == "bytes.NewReader" || staticID(call) == "bytes.NewBuffer") && isRootParam(call.Call.Args[0], x.fr, 3) {
 						c.OK(P.InstrPos(rq.fields["Body"][0]), "Body of PutObjectInput in "+ir.FuncName(fn), "reader over exactly the bytes parameter", false)
 					} else {
 						c.Violation(fn, P.InstrPos(rq.fields["Body"][0]), "Body of PutObjectInput is not the bytes parameter",
-							"Store uploads something other than a reader over exactly its bytes parameter ("+descValue(src)+")")
+							"Store uploads something other than a reader over exactly its bytes parameter ("+descFval(x)+")")
 					}
 				}
 			} else {
@@ -297,57 +323,139 @@ func runS3KEY(c *Ctx) {
 	}
 }
 
-// s3LoadBody: every return of Load that may carry a nil error returns the
-// result of io.ReadAll over the Body of this request's output.
-func s3LoadBody(c *Ctx, fn *ssa.Function, rq s3Req) {
-	P := c.P
-	out := extractOf(rq.call, 0)
-	type rv struct {
-		ok   bool
-		desc string
-	}
-	per := map[*ssa.Return]*rv{}
-	var order []*ssa.Return
+// successReturns lists, for every return of fn that can carry a nil error on
+// some feasible path, the returned values (cells resolved) on such a path.
+type succRet struct {
+	r    *ssa.Return
+	vals []ssa.Value
+}
+
+func successReturns(fn *ssa.Function) (out []succRet, overflow bool) {
+	ei := ir.ErrorResultIndex(fn.Signature)
 	w := &pwalker{fn: fn}
+	seen := map[string]bool{}
 	w.onReturn = func(st *pstate, r *ssa.Return) {
-		if len(r.Results) != 2 || nilness(st, r.Results[1]) == triYes {
+		if ei >= 0 && ei < len(r.Results) && nilness(st, r.Results[ei]) == triYes {
 			return
 		}
-		data := ir.ResolveCell(st.deref(r.Results[0]))
-		v := per[r]
-		if v == nil {
-			v = &rv{ok: true}
-			per[r] = v
-			order = append(order, r)
+		sr := succRet{r: r}
+		k := fmt.Sprintf("%p", r)
+		for _, v := range r.Results {
+			d := ir.ResolveCell(st.deref(v))
+			sr.vals = append(sr.vals, d)
+			k += "|" + d.Name()
 		}
-		ok := false
-		desc := ir.Sym(data)
-		if ex, isEx := data.(*ssa.Extract); isEx && ex.Index == 0 {
-			if call, isCall := ex.Tuple.(*ssa.Call); isCall && (staticID(call) == "io.ReadAll" || staticID(call) == "io/ioutil.ReadAll") {
-				src := ir.Strip(call.Call.Args[0])
-				if ld, isLd := src.(*ssa.UnOp); isLd && ld.Op == token.MUL {
-					if fa, isFA := ld.X.(*ssa.FieldAddr); isFA && out != nil && fa.X == ssa.Value(out) && ir.FieldName(fa.X.Type(), fa.Field) == "Body" {
-						ok = true
-					}
-				}
-				desc = "io.ReadAll(" + ir.Sym(src) + ")"
-			}
-		}
-		if !ok {
-			v.ok = false
-			v.desc = desc
+		if !seen[k] {
+			seen[k] = true
+			out = append(out, sr)
 		}
 	}
 	w.run()
-	if w.overflow {
+	return out, w.overflow
+}
+
+// s3LoadBody: every return of Load that may carry a nil error returns the
+// result of io.ReadAll over the Body of this request's output; the request
+// and the read may sit in helpers.
+func s3LoadBody(c *Ctx, fn *ssa.Function, rq s3Req) {
+	P := c.P
+	var isOutput func(v ssa.Value, fr *frame, d int) bool
+	isOutput = func(v ssa.Value, fr *frame, d int) bool {
+		v = ir.Strip(ir.ResolveCell(v))
+		ex, ok := v.(*ssa.Extract)
+		if !ok || ex.Index != 0 || d > 4 {
+			if p, isP := v.(*ssa.Parameter); isP && fr.up != nil {
+				x := expand(p, fr)
+				if x.fr != fr {
+					return isOutput(x.v, x.fr, d+1)
+				}
+			}
+			return false
+		}
+		call, ok := ex.Tuple.(*ssa.Call)
+		if !ok {
+			return false
+		}
+		if call == rq.call && fr == rq.fr {
+			return true
+		}
+		if k := fr.child(call); k != nil {
+			srs, ov := successReturns(k.fn)
+			if ov || len(srs) == 0 {
+				return false
+			}
+			for _, sr := range srs {
+				if len(sr.vals) == 0 || !isOutput(sr.vals[0], k, d+1) {
+					return false
+				}
+			}
+			return true
+		}
+		return false
+	}
+	var bodyBytes func(v ssa.Value, fr *frame, d int) (bool, string)
+	bodyBytes = func(v ssa.Value, fr *frame, d int) (bool, string) {
+		v = ir.Strip(ir.ResolveCell(v))
+		ex, ok := v.(*ssa.Extract)
+		if !ok || ex.Index != 0 || d > 4 {
+			return false, descValue(v)
+		}
+		call, ok := ex.Tuple.(*ssa.Call)
+		if !ok {
+			return false, descValue(v)
+		}
+		if id := staticID(call); id == "io.ReadAll" || id == "io/ioutil.ReadAll" {
+			src := expand(call.Call.Args[0], fr)
+			if ld, isLd := src.v.(*ssa.UnOp); isLd && ld.Op == token.MUL {
+				if fa, isFA := ld.X.(*ssa.FieldAddr); isFA && ir.FieldName(fa.X.Type(), fa.Field) == "Body" && isOutput(fa.X, src.fr, d+1) {
+					return true, ""
+				}
+			}
+			return false, "io.ReadAll(" + descFval(src) + ")"
+		}
+		if k := fr.child(call); k != nil {
+			srs, ov := successReturns(k.fn)
+			if ov || len(srs) == 0 {
+				return false, "result of " + k.fn.Name()
+			}
+			for _, sr := range srs {
+				if len(sr.vals) == 0 {
+					return false, "result of " + k.fn.Name()
+				}
+				if ok, why := bodyBytes(sr.vals[0], k, d+1); !ok {
+					return false, why + " (returned by " + k.fn.Name() + ")"
+				}
+			}
+			return true, ""
+		}
+		return false, descValue(v)
+	}
+	srs, ov := successReturns(fn)
+	if ov {
 		c.Undecided(fn, P.Pos(fn.Pos()), "paths", "path exploration exceeded its bound")
 		return
 	}
+	root := rq.fr.root()
+	done := map[*ssa.Return]bool{}
+	bad := map[*ssa.Return]string{}
+	var order []*ssa.Return
+	for _, sr := range srs {
+		if len(sr.vals) != 2 {
+			continue
+		}
+		if !done[sr.r] {
+			done[sr.r] = true
+			order = append(order, sr.r)
+		}
+		if ok, why := bodyBytes(sr.vals[0], root, 0); !ok {
+			bad[sr.r] = why
+		}
+	}
 	for _, r := range order {
-		if per[r].ok {
-			c.OK(P.InstrPos(r), "data returned by "+ir.FuncName(fn), "io.ReadAll of the GetObject output's Body", false)
+		if why, isBad := bad[r]; isBad {
+			c.Violation(fn, P.InstrPos(r), "Load does not return the object body", "Load can return "+why+" with a nil error rather than everything read from the Body of its GetObject output")
 		} else {
-			c.Violation(fn, P.InstrPos(r), "Load does not return the object body", "Load can return "+per[r].desc+" with a nil error rather than everything read from the Body of its GetObject output")
+			c.OK(P.InstrPos(r), "data returned by "+ir.FuncName(fn), "io.ReadAll of the GetObject output's Body", false)
 		}
 	}
 	if len(order) == 0 {
@@ -438,17 +546,42 @@ func (lt lockedType) isPtrTo(t types.Type) bool {
 func lockType(c *Ctx, lt lockedType) {
 	P := c.P
 	tname := lt.named.Obj().Name()
+	isMethodOfT := func(fn *ssa.Function) bool {
+		return fn != nil && fn.Parent() == nil && fn.Signature.Recv() != nil && (lt.isPtrTo(fn.Signature.Recv().Type()) || types.Identical(fn.Signature.Recv().Type(), lt.named))
+	}
+	// helper methods: unexported, and called only by methods of T on their own receiver;
+	// they are analysed with the lock state their callers establish
+	isHelper := func(fn *ssa.Function) bool {
+		if fn.Object() == nil || fn.Object().Exported() || len(P.Callers[fn]) == 0 || c.Facts.addrTaken[fn] {
+			return false
+		}
+		for _, ci := range P.Callers[fn] {
+			caller := ci.Parent()
+			call, isCall := ci.(*ssa.Call)
+			if !isCall || !isMethodOfT(caller) || !lt.isPtrTo(caller.Signature.Recv().Type()) || len(call.Call.Args) == 0 || call.Call.Args[0] != ssa.Value(caller.Params[0]) {
+				return false
+			}
+		}
+		return true
+	}
+	calls := map[*ssa.Function]map[string]bool{}
+	done := map[*ssa.Function]bool{}
+	var helpers []*ssa.Function
 	for _, fn := range P.Funcs {
 		if fn.Pkg.Pkg.Path() != lt.pkg {
 			continue
 		}
-		isMethod := fn.Parent() == nil && fn.Signature.Recv() != nil && (lt.isPtrTo(fn.Signature.Recv().Type()) || types.Identical(fn.Signature.Recv().Type(), lt.named))
-		if isMethod {
+		if isMethodOfT(fn) {
 			if !lt.isPtrTo(fn.Signature.Recv().Type()) {
 				c.Undecided(fn, P.Pos(fn.Pos()), "value receiver on "+tname, "a method with a value receiver copies the mutex and the guarded fields")
 				continue
 			}
-			lockMethod(c, lt, fn)
+			if isHelper(fn) {
+				helpers = append(helpers, fn)
+				continue
+			}
+			lockMethod(c, lt, fn, "", calls)
+			done[fn] = true
 			continue
 		}
 		// other functions: field accesses to a T only on fresh allocations
@@ -473,9 +606,37 @@ func lockType(c *Ctx, lt lockedType) {
 			}
 		}
 	}
+	for round := 0; round < 4 && len(helpers) > 0; round++ {
+		var rest []*ssa.Function
+		for _, h := range helpers {
+			ready := true
+			for _, ci := range P.Callers[h] {
+				if !done[ci.Parent()] {
+					ready = false
+				}
+			}
+			if !ready && round < 3 {
+				rest = append(rest, h)
+				continue
+			}
+			entry := ""
+			if st := calls[h]; len(st) == 1 && ready {
+				for k := range st {
+					entry = k
+				}
+			}
+			lockMethod(c, lt, h, entry, calls)
+			done[h] = true
+		}
+		helpers = rest
+	}
 }
 
-func lockMethod(c *Ctx, lt lockedType, fn *ssa.Function) {
+// lockMethod analyses one method. entry is the lock state on entry ("" for
+// API methods; "L"/"R" for helper methods all of whose callers hold the lock);
+// calls collects the lock state at every call of another method of T on the
+// same receiver.
+func lockMethod(c *Ctx, lt lockedType, fn *ssa.Function, entry string, calls map[*ssa.Function]map[string]bool) {
 	P := c.P
 	recv := fn.Params[0]
 	tname := lt.named.Obj().Name()
@@ -536,11 +697,19 @@ func lockMethod(c *Ctx, lt lockedType, fn *ssa.Function) {
 	retBad := map[*ssa.Return]string{}
 	retSeen := map[*ssa.Return]bool{}
 	var retOrder []*ssa.Return
-	usesLock := false
-	w := &pwalker{fn: fn}
+	usesLock := entry != ""
+	w := &pwalker{fn: fn, initAux: entry}
 	w.onInstr = func(st *pstate, ins ssa.Instruction) {
 		held := strings.TrimSuffix(st.aux, "d")
 		deferred := strings.HasSuffix(st.aux, "d")
+		if call, ok := ins.(*ssa.Call); ok {
+			if h := call.Call.StaticCallee(); h != nil && h != fn && h.Signature.Recv() != nil && lt.isPtrTo(h.Signature.Recv().Type()) && len(call.Call.Args) > 0 && call.Call.Args[0] == ssa.Value(recv) {
+				if calls[h] == nil {
+					calls[h] = map[string]bool{}
+				}
+				calls[h][held] = true
+			}
+		}
 		setHeld := func(h string) {
 			if deferred {
 				st.aux = h + "d"
@@ -644,7 +813,11 @@ func lockMethod(c *Ctx, lt lockedType, fn *ssa.Function) {
 		}
 		held := strings.TrimSuffix(st.aux, "d")
 		deferred := strings.HasSuffix(st.aux, "d")
-		if held != "" && !deferred {
+		if entry != "" {
+			if held != entry || deferred {
+				retBad[r] = "is entered with " + lt.mfield + " held by its callers but returns in a different lock state (" + st.pathString() + ")"
+			}
+		} else if held != "" && !deferred {
 			retBad[r] = "returns with " + tname + "." + lt.mfield + " held (" + st.pathString() + ")"
 		} else if held == "" && deferred {
 			retBad[r] = "a deferred unlock runs on a path on which " + lt.mfield + " is not held (" + st.pathString() + ")"
@@ -686,7 +859,11 @@ func lockMethod(c *Ctx, lt lockedType, fn *ssa.Function) {
 			c.Violation(fn, P.InstrPos(ins), construct,
 				fmt.Sprintf("%s accesses %s.%s %s on some path: concurrent Load/Store race on the map", ir.FuncName(fn), tname, a.field, a.bad), a.path)
 		} else {
-			c.OK(P.InstrPos(ins), what, lt.mfield+" held on every path", false)
+			why := lt.mfield + " held on every path"
+			if entry != "" {
+				why += " (helper: every caller holds it at the call)"
+			}
+			c.OK(P.InstrPos(ins), what, why, false)
 		}
 	}
 	for _, r := range retOrder {
